@@ -849,4 +849,238 @@ Proof.
     specialize (Fin s1 _ S1). destruct (p_dealloc mgr nb crewsz s1) as [[u'| |] s2]; try contradiction; exact Fin.
 Qed.
 
+(* ---------------- TreeSet(const TreeSet&, MemManager), root = leaf *)
+Lemma ts_pv_copy_leaf_post sr n s f bs nb :
+  st_is s f bs nb -> fresh bs nb -> (forall l, nb <= fst l -> f l = false) ->
+  (forall k, 0 <= k < Z.of_nat n -> f (sr, 0 + k) = true) ->
+  post (ts_pv_copy_leaf mgr nodesz sr n) s
+       (fun node s' => node = nb /\ st_is s' (fun l => inrng nb 0 n l || f l) ((nb, (mgr, nodesz)) :: bs) (nb + 1))
+       (fun s' => exists nb', nb <= nb' /\ st_is s' f bs nb').
+Proof.
+  intros H Hf Hcl Hsrc. unfold ts_pv_copy_leaf, post.
+  pose proof (p_alloc_post mgr nodesz s f bs nb H) as P. unfold post in P.
+  destruct (p_alloc mgr nodesz s) as [[node| |] s1]; [| |contradiction].
+  2:{ exists nb. split; [lia|exact P]. }
+  destruct P as [En H1]. subst node.
+  assert (Hr : forall k, 0 <= k < Z.of_nat n -> f (sr, 0 + 0 + k) = true /\ f (nb, 0 + 0 + k) = false).
+  { intros k Hk. split; [apply Hsrc; assumption|]. apply Hcl. simpl. lia. }
+  pose proof (om_copy_loop_post sr 0 nb 0 n 0 s1 f _ _ H1 Hr) as L.
+  destruct (om_copy_loop sr 0 nb 0 0 n s1) as [[idx o] s2].
+  destruct o as [u| |]; [| |contradiction].
+  - destruct L as [_ S2]. split; [reflexivity|exact S2].
+  - destruct L as [Hi S2]. rewrite Z.add_0_l, Z.sub_0_r in S2.
+    fold (post (catch_rethrow (@throw Z) (om_destroy_n nb 0 (Z.to_nat idx) ;;; p_dealloc mgr nb nodesz)) s2
+           (fun node s' => node = nb /\ st_is s' (fun l => inrng nb 0 n l || f l) ((nb, (mgr, nodesz)) :: bs) (nb + 1))
+           (fun s' => exists nb', nb <= nb' /\ st_is s' f bs nb')).
+    apply post_catch. apply post_throw. apply post_bind.
+    eapply post_conseq; [apply (om_destroy_n_post nb (Z.to_nat idx) 0 s2 _ _ _ S2)| |intros ? []].
+    + intros k Hk. cbv beta. rewrite (inrng_in nb 0 (Z.to_nat idx) k Hk). reflexivity.
+    + intros u1 s3 H3.
+      eapply post_conseq; [apply (p_dealloc_post mgr nb nodesz s3 _ _ _ H3)| |intros ? []].
+      * simpl. rewrite Z.eqb_refl. reflexivity.
+      * intros u2 s4 H4. exists (nb + 1). split; [lia|].
+        simpl in H4. rewrite Z.eqb_refl in H4. simpl in H4. rewrite (remove_blk_fresh bs nb nb Hf) in H4 by lia.
+        eapply st_is_ext; [|exact H4]. apply undo_dst. intros k Hk. apply Hcl. simpl. lia.
+Qed.
+
+Lemma ts_pv_destroy_full_post par fill s f bs nb :
+  st_is s f ((par + 1, (mgr, nodesz)) :: (par, (mgr, tparsz)) :: bs) nb -> fresh bs par ->
+  (forall k, 0 <= k < Z.of_nat fill -> f (par + 1, 0 + k) = true) ->
+  post (ts_pv_destroy mgr nodesz tparsz (mkT (Some (par + 1)) (Some par) fill)) s
+       (fun _ s' => st_is s' (fun l => negb (inrng (par + 1) 0 fill l) && f l) bs nb) (fun _ => False).
+Proof.
+  intros H Hf Hfill. unfold ts_pv_destroy. cbn [t_root t_params t_fill].
+  apply post_bind. apply post_bind.
+  eapply post_conseq; [apply (p_touch_post (par + 1) s _ _ _ (mgr, nodesz) H)| |auto].
+  { simpl. rewrite Z.eqb_refl. reflexivity. }
+  intros u1 s1 H1. apply post_bind.
+  eapply post_conseq; [apply (om_destroy_n_post (par + 1) fill 0 s1 _ _ _ H1 Hfill)| |auto].
+  intros u2 s2 H2.
+  eapply post_conseq; [apply (p_dealloc_post mgr (par + 1) nodesz s2 _ _ _ H2)| |auto].
+  { simpl. rewrite Z.eqb_refl. reflexivity. }
+  intros u3 s3 H3.
+  assert (E3 : remove_blk (par + 1) ((par + 1, (mgr, nodesz)) :: (par, (mgr, tparsz)) :: bs) = (par, (mgr, tparsz)) :: bs).
+  { simpl. rewrite Z.eqb_refl. simpl.
+    destruct (Z.eqb_spec par (par + 1)); [lia|]. simpl. f_equal. apply (remove_blk_fresh bs par); [assumption|lia]. }
+  rewrite E3 in H3.
+  eapply post_conseq; [apply (p_dealloc_post mgr par tparsz s3 _ _ _ H3)| |auto].
+  { simpl. rewrite Z.eqb_refl. reflexivity. }
+  intros u4 s4 H4. simpl in H4. rewrite Z.eqb_refl in H4. simpl in H4.
+  rewrite (remove_blk_fresh bs par par Hf) in H4 by lia. exact H4.
+Qed.
+
+Lemma ts_copy_ctor_spec sr n s f bs :
+  fresh_world s f bs -> (forall k, 0 <= k < Z.of_nat n -> f (sr, 0 + k) = true) ->
+  match ts_copy_ctor mgr nodesz tparsz true sr n s with
+  | ((t, Val _), s') =>
+      (n = O /\ t = mkT None None O /\ st_is s' f bs (nextb s)) \/
+      (n <> O /\ t = mkT (Some (nextb s + 1)) (Some (nextb s)) n /\
+       st_is s' (fun l => inrng (nextb s + 1) 0 n l || f l)
+             ((nextb s + 1, (mgr, nodesz)) :: (nextb s, (mgr, tparsz)) :: bs) (nextb s + 2))
+  | ((t, Exc), s') => t = mkT None None O /\ exists nb', nextb s <= nb' /\ st_is s' f bs nb'
+  | ((_, Stuck), _) => False
+  end.
+Proof.
+  intros (H & Hf & Hcl) Hsrc. unfold ts_copy_ctor. destruct n as [|n'].
+  - left. auto.
+  - set (n := S n') in *. set (nb := nextb s) in *.
+    pose proof (p_alloc_post mgr tparsz s f bs nb H) as P. unfold post in P.
+    destruct (p_alloc mgr tparsz s) as [[par| |] s1]; [| |contradiction].
+    2:{ split; [reflexivity|]. exists nb. split; [lia|exact P]. }
+    destruct P as [Ep H1]. subst par.
+    assert (Hf1 : fresh ((nb, (mgr, tparsz)) :: bs) (nb + 1)) by (apply fresh_cons; [exact Hf|lia]).
+    assert (Hcl1 : forall l, nb + 1 <= fst l -> f l = false) by (intros l Hl; apply Hcl; lia).
+    pose proof (ts_pv_copy_leaf_post sr n s1 f _ _ H1 Hf1 Hcl1 Hsrc) as L. unfold post in L.
+    destruct (ts_pv_copy_leaf mgr nodesz sr n s1) as [[node| |] s2]; [| |contradiction].
+    + right. destruct L as [En S2]. subst node. split; [discriminate|]. split; [reflexivity|].
+      replace (nb + 2) with (nb + 1 + 1) by lia. exact S2.
+    + destruct L as (nb' & Hle & S2).
+      unfold ts_pv_destroy. cbn [t_root t_params]. unfold bind at 1. unfold ret at 1.
+      pose proof (p_dealloc_post mgr nb tparsz s2 _ _ _ S2) as D. unfold post in D.
+      assert (Hfd : find_blk nb ((nb, (mgr, tparsz)) :: bs) = Some (mgr, tparsz)) by (simpl; rewrite Z.eqb_refl; reflexivity).
+      specialize (D Hfd). destruct (p_dealloc mgr nb tparsz s2) as [[u| |] s3]; try contradiction.
+      split; [reflexivity|]. exists nb'. split; [lia|].
+      simpl in D. rewrite Z.eqb_refl in D. simpl in D. rewrite (remove_blk_fresh bs nb nb Hf) in D by lia. exact D.
+Qed.
+
+Theorem ts_copy_then_destroy_post sr n s f bs :
+  fresh_world s f bs -> (forall k, 0 <= k < Z.of_nat n -> f (sr, 0 + k) = true) ->
+  post (ts_copy_then_destroy mgr crewsz nodesz tparsz true sr n) s
+       (fun _ s' => st_is s' f bs (nextb s')) (fun s' => st_is s' f bs (nextb s')).
+Proof.
+  intros W Hsrc. pose proof W as (H & Hf & Hcl). unfold ts_copy_then_destroy, post.
+  pose proof (p_alloc_post mgr crewsz s f bs (nextb s) H) as P0. unfold post in P0.
+  destruct (p_alloc mgr crewsz s) as [[crew| |] s0]; [| |contradiction].
+  2:{ destruct P0 as (A & B & C). rewrite C. repeat split; auto. }
+  destruct P0 as [Ec S0]. subst crew. set (nb := nextb s) in *.
+  assert (N0 : nextb s0 = nb + 1) by (destruct S0 as (_ & _ & C); exact C).
+  assert (W0 : fresh_world s0 f ((nb, (mgr, crewsz)) :: bs)).
+  { split; [rewrite N0; exact S0|]. split.
+    - rewrite N0. apply fresh_cons; [exact Hf|lia].
+    - intros l Hl. apply Hcl. fold nb. lia. }
+  pose proof (ts_copy_ctor_spec sr n s0 f _ W0 Hsrc) as C.
+  destruct (ts_copy_ctor mgr nodesz tparsz true sr n s0) as [[t o] s1].
+  assert (Fin : forall s1' nb', st_is s1' f ((nb, (mgr, crewsz)) :: bs) nb' ->
+            match p_dealloc mgr nb crewsz s1' with
+            | (Val _, s2) => st_is s2 f bs (nextb s2)
+            | (Exc, s2) => st_is s2 f bs (nextb s2)
+            | (Stuck, _) => False
+            end).
+  { intros s1' nb' H1'. pose proof (p_dealloc_post mgr nb crewsz s1' _ _ _ H1') as D. unfold post in D.
+    assert (Hfd : find_blk nb ((nb, (mgr, crewsz)) :: bs) = Some (mgr, crewsz)) by (simpl; rewrite Z.eqb_refl; reflexivity).
+    specialize (D Hfd). destruct (p_dealloc mgr nb crewsz s1') as [[u| |] s2]; try contradiction.
+    simpl in D. rewrite Z.eqb_refl in D. simpl in D. rewrite (remove_blk_fresh bs nb nb Hf) in D by lia.
+    destruct D as (A & B & Cn). rewrite Cn. repeat split; auto. }
+  destruct o as [u| |]; [| |contradiction].
+  - destruct C as [(En & Et & S1)|(En & Et & S1)]; subst t.
+    + unfold ts_pv_destroy. cbn [t_root t_params]. unfold bind, ret. cbv beta iota.
+      specialize (Fin s1 _ S1). destruct (p_dealloc mgr nb crewsz s1) as [[u'| |] s2]; try contradiction; exact Fin.
+    + rewrite N0 in S1.
+      pose proof (ts_pv_destroy_full_post (nb + 1) n s1 _ ((nb, (mgr, crewsz)) :: bs) _ S1) as D.
+      assert (Hfr : fresh ((nb, (mgr, crewsz)) :: bs) (nb + 1)) by (apply fresh_cons; [exact Hf|lia]).
+      assert (Hfill : forall k, 0 <= k < Z.of_nat n -> (fun l => inrng (nb + 1 + 1) 0 n l || f l) (nb + 1 + 1, 0 + k) = true).
+      { intros k Hk. cbv beta. rewrite (inrng_in (nb + 1 + 1) 0 n k Hk). reflexivity. }
+      rewrite N0. specialize (D Hfr Hfill). unfold post in D. unfold bind at 1.
+      destruct (ts_pv_destroy mgr nodesz tparsz {| t_root := Some (nb + 1 + 1); t_params := Some (nb + 1); t_fill := n |} s1)
+        as [[u'| |] s2]; try contradiction.
+      assert (S2 : st_is s2 f ((nb, (mgr, crewsz)) :: bs) (nb + 1 + 2)).
+      { eapply st_is_ext; [|exact D]. apply undo_dst. intros k Hk. apply Hcl. simpl. fold nb. lia. }
+      specialize (Fin s2 _ S2). destruct (p_dealloc mgr nb crewsz s2) as [[u''| |] s3]; try contradiction; exact Fin.
+  - destruct C as [Et (nb' & Hle & S1)]. subst t. unfold ts_pv_destroy. cbn [t_root t_params]. unfold bind, ret. cbv beta iota.
+    specialize (Fin s1 _ S1). destruct (p_dealloc mgr nb crewsz s1) as [[u'| |] s2]; try contradiction; exact Fin.
+Qed.
+
 End CtorProofs.
+
+(* ------------------------------------------------------------------ closed forms (non-vacuity): from the concrete initial
+   state with n source items, for EVERY schedule and EVERY n the copy (+ destructor) ends with no block and exactly the
+   source items alive *)
+Lemma init_fresh_world n sch :
+  fresh_world (init_state (-1) n sch) (fun l => occ (init_cells (-1) n l)) [].
+Proof.
+  split; [|split].
+  - split; [|split]; reflexivity.
+  - intros b p [].
+  - intros l Hl. simpl in Hl. unfold init_cells.
+    destruct (Z.eqb_spec (fst l) (-1)); [lia|reflexivity].
+Qed.
+
+Lemma init_src_occupied n k : 0 <= k < n -> occ (init_cells (-1) n (-1, 0 + k)) = true.
+Proof.
+  intros Hk. rewrite Z.add_0_l. unfold init_cells. cbn [fst snd]. rewrite Z.eqb_refl.
+  assert (E1 : Z.leb 0 k = true) by (apply Z.leb_le; lia).
+  assert (E2 : Z.ltb k n = true) by (apply Z.ltb_lt; lia).
+  rewrite E1, E2. reflexivity.
+Qed.
+
+Definition only_sources_left (n : Z) (s' : rstate) : Prop :=
+  blocks s' = [] /\ forall l, occ (cells s' l) = occ (init_cells (-1) n l).
+
+Theorem hs_copy_any_schedule mgr bufsz parsz crewsz (n : nat) (sch : list bool) :
+  post (hs_copy_then_destroy mgr bufsz parsz crewsz true (-1) n) (init_state (-1) (Z.of_nat n) sch)
+       (fun _ s' => only_sources_left (Z.of_nat n) s') (fun s' => only_sources_left (Z.of_nat n) s').
+Proof.
+  eapply post_conseq.
+  - apply (hs_copy_then_destroy_post mgr bufsz parsz crewsz (-1) n _ _ _ (init_fresh_world (Z.of_nat n) sch)).
+    intros k Hk. apply init_src_occupied. exact Hk.
+  - intros u s' (A & B & _). split; [exact B|exact A].
+  - intros s' (A & B & _). split; [exact B|exact A].
+Qed.
+
+Theorem ts_copy_any_schedule mgr crewsz nodesz tparsz (n : nat) (sch : list bool) :
+  post (ts_copy_then_destroy mgr crewsz nodesz tparsz true (-1) n) (init_state (-1) (Z.of_nat n) sch)
+       (fun _ s' => only_sources_left (Z.of_nat n) s') (fun s' => only_sources_left (Z.of_nat n) s').
+Proof.
+  eapply post_conseq.
+  - apply (ts_copy_then_destroy_post mgr crewsz nodesz tparsz (-1) n _ _ _ (init_fresh_world (Z.of_nat n) sch)).
+    intros k Hk. apply init_src_occupied. exact Hk.
+  - intros u s' (A & B & _). split; [exact B|exact A].
+  - intros s' (A & B & _). split; [exact B|exact A].
+Qed.
+
+(* an array of [count] items in a block of [cap] >= 1 items, block id 0, argument cell (-3,0): satisfies arr_world *)
+Definition arr_init (mgr isz : Z) (count cap : nat) (sch : list bool) : rstate :=
+  mkR (fun l => if loc_eqb l (-3, 0) then Live 7 else init_cells 0 (Z.of_nat count) l)
+      [(0, (mgr, Z.of_nat cap * isz))] sch 1 [].
+Definition arg_only (l : loc) : bool := loc_eqb l (-3, 0).
+
+Lemma arr_init_world mgr isz count cap sch :
+  cap <> O -> arr_world mgr isz (mkA 0 count cap) arg_only (arr_init mgr isz count cap sch).
+Proof.
+  intros Hc. unfold arr_world. cbn [a_items a_count a_cap nextb arr_init].
+  split; [split; [|split]|].
+  - intros l. unfold occf, arr_occ, arg_only, arr_init. cbn [cells a_items a_count].
+    destruct (loc_eqb l (-3, 0)); [rewrite orb_true_r; reflexivity|].
+    rewrite orb_false_r. unfold init_cells, inrng. rewrite Z.add_0_l.
+    destruct (Z.eqb (fst l) 0), (Z.leb 0 (snd l)), (Z.ltb (snd l) (Z.of_nat count)); reflexivity.
+  - unfold arr_blocks. cbn [a_cap a_items]. destruct cap; [congruence|reflexivity].
+  - reflexivity.
+  - split; [intros E; congruence|]. split; [intros _; lia|]. split; [|lia].
+    intros l E. unfold arg_only in E. destruct (loc_eqb_spec l (-3, 0)); [subst; simpl; lia|discriminate].
+Qed.
+
+(* Array: regrow (Reserve / Shrink) or add-back with growth, then ~Array, for every schedule, count, capacities:
+   never Stuck, afterwards no block is live and only the argument cell is occupied *)
+Theorem array_regrow_any_schedule c mgr isz count cap newcap sch :
+  cap <> O -> newcap <> O ->
+  let d := mkA 0 count cap in
+  post (array_op_then_destroy mgr isz d (array_regrow c mgr isz d newcap)) (arr_init mgr isz count cap sch)
+       (fun _ s' => st_is s' arg_only [] (nextb s')) (fun s' => st_is s' arg_only [] (nextb s')).
+Proof.
+  intros Hc Hn d. pose proof (arr_init_world mgr isz count cap sch Hc) as W.
+  apply (array_op_then_destroy_post mgr isz d arg_only _ _
+           (fun d' => a_count d' = a_count d /\ a_cap d' = newcap) W).
+  apply (array_regrow_post c mgr isz d arg_only _ newcap W Hn).
+Qed.
+
+Theorem array_addback_any_schedule c mgr isz count cap newcap sch :
+  cap <> O -> newcap <> O ->
+  let d := mkA 0 count cap in
+  post (array_op_then_destroy mgr isz d (array_addback_grow c mgr isz d newcap (-3, 0))) (arr_init mgr isz count cap sch)
+       (fun _ s' => st_is s' arg_only [] (nextb s')) (fun s' => st_is s' arg_only [] (nextb s')).
+Proof.
+  intros Hc Hn d. pose proof (arr_init_world mgr isz count cap sch Hc) as W.
+  apply (array_op_then_destroy_post mgr isz d arg_only _ _
+           (fun d' => a_count d' = S (a_count d) /\ a_cap d' = newcap) W).
+  apply (array_addback_grow_post c mgr isz d arg_only _ newcap (-3, 0) W Hn). reflexivity.
+Qed.
